@@ -73,7 +73,7 @@ def explore_task(modname, taskname):
         for q in tk.functions:
             fps.append(P.function_fingerprint(q))
         while work:
-            prefix = work.pop()
+            prefix = work.pop(0)      # breadth-first: short prefixes first, so co-inductive closure keeps re-executions short
             npaths += 1
             if npaths > PATH_CAP:
                 raise EngineError(f"path cap {PATH_CAP} exceeded in task {taskname}")
